@@ -346,6 +346,7 @@ def instantiate(rnd, params, args, names, mode):
                     a["c"] = rnd.randint(-4, 8)
                 else:
                     a["c"] = rnd.choice([2, 4, 4, 8, 8, 16])
+    children = {n: [(c, i) for c in params for i, a in enumerate(args[c]) if a["t"] == "p" and a["p"] == n] for n in params}
     if mode == "rvs":
         for n in order:          # a uniform whose draw is used as a scale: loc >= 1/4
             for c, i in children[n]:
@@ -436,9 +437,9 @@ def u_rec(byname=False):
 PINNED_F8 = dict(params=["a", "b"], args=dict(a=[dict(t="c", p="", c=0), dict(t="c", p="", c=8)], b=[dict(t="p", p="a", c=0), dict(t="c", p="", c=8)]),
                  dist=dict(a=u_rec(True), b=u_rec(True)), names=["a"], unit=4, mode="val", default_names=False, sim=False, pinned="F8",
                  calls=[dict(op="pdf", ndim=0, rows=[[2]], form="list", dtype="f"), dict(op="logpdf", ndim=1, rows=[[2], [8], [9]], form="array", dtype="f")])
-# F27: integer-typed point, half-integer slope (logpdf = (1 + 3x - |x - 1|) / 2): gradient 1 at x = 2
+# F27: integer-typed point, half-integer slope (logpdf = (1 + 2x - |x - 1|) / 2): gradient 1/2 at x = 2, 3/2 at x = 0
 PINNED_F27 = dict(params=["a"], args=dict(a=[]),
-                  dist=dict(a=dict(kind="fake", w0=2, zm=4, zr=3, z=[0, 0], l0=1, l=[3, 0, 0], k=-1, dd=[1, 0, 0], m=1)),
+                  dist=dict(a=dict(kind="fake", w0=2, zm=4, zr=3, z=[0, 0], l0=1, l=[2, 0, 0], k=-1, dd=[1, 0, 0], m=1)),
                   names=["a"], unit=4, mode="grad", default_names=True, sim=False, pinned="F27",
                   calls=[dict(op="grad", ndim=1, rows=[[8], [0]], hu=2, form="array", dtype="f"),
                          dict(op="grad", ndim=1, rows=[[8], [0]], hu=2, form="array", dtype="i"),
